@@ -75,7 +75,7 @@ Section Rd.
   (* ---- the subscriber's view ---- *)
   (* generation g is committed frames from its base up to offset o *)
   Definition gen_upto (s : shared) (gh : ghost) (g o : Z) : Prop :=
-    c_n0 c <= g <= GB + 1 /\ base c g <= o <= TL c /\ o mod 32 = 0 /\
+    c_n0 c <= g <= GB + 2 /\ base c g <= o <= TL c /\ o mod 32 = 0 /\
     (base c g < o -> live c s gh g) /\
     (live c s gh g -> tiles c (sh_mem s (g mod 3)) (tid_of c g) (base c g) o).
 
@@ -91,7 +91,8 @@ Section Rd.
   Definition rd_ok (s : shared) (gh : ghost) (l : rlocal) : Prop :=
     let g := rd_gen l in let p := g mod 3 in
     (in_poll (r_pc l) = true ->
-       sh_subpos s = r_pos l /\ 0 <= r_pos l /\ r_idx c l = p /\ r_toff0 l = r_pos l mod TL c /\ r_toff0 l <= r_off l /\
+       sh_subpos s = r_pos l /\ 0 <= r_pos l /\ r_idx c l = p /\ r_toff0 l = r_pos l mod TL c /\
+       base c g <= r_toff0 l <= r_off l /\
        gen_upto s gh g (if on_frame (r_pc l) then r_foff l else r_off l)) /\
     (on_frame (r_pc l) = true ->
        let sl := sh_mem s p (r_foff l) in
@@ -127,4 +128,59 @@ Section Rd.
     assert (0 <= pos / TL c) by (apply Z.div_pos; lia).
     rewrite rem3_nonneg by assumption. apply wrap32_id.
     pose proof (Z.mod_pos_bound (pos / TL c) 3 ltac:(lia)). unfold in_i32, two31. lia. Qed.
+
+  (* ---- frame: a step of somebody else that keeps committed slots, the liveness of the generation and the claims ---- *)
+  Lemma gen_upto_frame s gh s' gh' g o :
+    gen_upto s gh g o ->
+    (forall p x, 0 < s_len (sh_mem s p x) -> sh_mem s' p x = sh_mem s p x) ->
+    (live c s gh g -> live c s' gh' g) ->
+    gen_upto s' gh' g o.
+  Proof. intros (G1 & G2 & G3 & G4 & G5) F1 F2. split; [assumption|]. split; [assumption|]. split; [assumption|]. split.
+    - intros X. apply F2. apply G4. assumption.
+    - intros L'. destruct (Z_lt_ge_dec (base c g) o) as [Hlt | Hge].
+      + apply (tiles_stable (sh_mem s (g mod 3))); [apply G5; apply G4; assumption | intros x; apply F1].
+      + replace o with (base c g) by lia. constructor. Qed.
+
+  Lemma on_frame_in_poll pc : on_frame pc = true -> in_poll pc = true.
+  Proof. destruct pc; intros; try discriminate; reflexivity. Qed.
+
+  Lemma rd_ok_frame s gh s' gh' l :
+    rd_ok s gh l -> sh_subpos s' = sh_subpos s ->
+    (forall p x, 0 < s_len (sh_mem s p x) -> sh_mem s' p x = sh_mem s p x) ->
+    (in_poll (r_pc l) = true -> live c s gh (rd_gen l) -> live c s' gh' (rd_gen l)) ->
+    (forall g e, In e (g_claims gh g) -> In e (g_claims gh' g)) ->
+    rd_ok s' gh' l.
+  Proof. intros (R1 & R2 & R3 & R4) Hs F1 F2 F4. unfold rd_ok in *. rewrite Hs.
+    split; [|split; [|split; [|exact R4]]].
+    - intros X. destruct (R1 X) as (A1 & A2 & A3 & A4 & A5 & A6). repeat (split; [assumption|]).
+      eapply gen_upto_frame; eauto.
+    - intros X. destruct (R2 X) as (B1 & B2 & B3 & B4 & B5 & B6 & e & He & Hin).
+      assert (E : sh_mem s' (rd_gen l mod 3) (r_foff l) = sh_mem s (rd_gen l mod 3) (r_foff l)) by (apply F1; lia).
+      cbn zeta. rewrite E. split; [apply F2; [apply on_frame_in_poll|]; assumption|]. repeat (split; [assumption|]).
+      exists e. split; [apply F4; assumption | assumption].
+    - intros X. rewrite (R3 X). symmetry. f_equal. apply F1.
+      assert (Y : on_frame (r_pc l) = true) by (rewrite X; reflexivity). destruct (R2 Y) as (_ & B2 & B3 & _). lia. Qed.
+
+  Lemma cursor_ok_frame s gh s' gh' pos :
+    cursor_ok s gh pos ->
+    (forall p x, 0 < s_len (sh_mem s p x) -> sh_mem s' p x = sh_mem s p x) ->
+    (live c s gh (pos / TL c) -> live c s' gh' (pos / TL c)) ->
+    cursor_ok s' gh' pos.
+  Proof. intros (C1 & C2 & C3) F1 F2. split; [assumption|]. split; [assumption|]. eapply gen_upto_frame; eauto. Qed.
+
+  (* the driver zeroes partition p, which holds a generation no subscriber is in *)
+  Lemma gen_upto_clean s gh g o p : 0 <= p < 3 ->
+    gen_upto s gh g o -> g <> tg c s p ->
+    gen_upto (with_mem s (mclean (sh_mem s) p)) (gstep_env c s (Clean p) gh) g o.
+  Proof. intros Hp (G1 & G2 & G3 & G4 & G5) Hne.
+    set (s' := with_mem s (mclean (sh_mem s) p)). set (gh' := gstep_env c s (Clean p) gh).
+    assert (Hl : live c s' gh' g <-> live c s gh g).
+    { unfold live. change (tg c s' (g mod 3)) with (tg c s (g mod 3)). unfold gh', gstep_env.
+      destruct (c_n0 c <=? tg c s p); [|tauto]. cbn. destruct (g =? tg c s p) eqn:E; [lia | tauto]. }
+    split; [assumption|]. split; [assumption|]. split; [assumption|]. split.
+    - intros X. apply Hl. apply G4. assumption.
+    - intros L'. apply Hl in L'. pose proof L' as (L1 & _).
+      assert (Hpp : g mod 3 <> p) by (intros E; rewrite E in L1; lia).
+      apply (tiles_stable (sh_mem s (g mod 3))); [apply G5; assumption|].
+      intros x _. unfold s', mclean. cbn. destruct (g mod 3 =? p) eqn:E; [lia | reflexivity]. Qed.
 End Rd.
